@@ -192,10 +192,13 @@ def main(run: core.Run) -> None:
     variants = (('lf', True), ('crlf', False))
     if tier == 'quick':
         items = [{'text': t} for t in docs.texts(docs.L_FULL, 2, variants=variants)]
+        # three-line documents that start with a transaction header (claimed comments with another indent than their owner)
+        items += [{'text': docs.join_lines([docs.L_FULL[0], a, b])} for a in docs.L_FULL for b in docs.L_FULL]
         nb, nr = 3, 2
     else:
         items = [{'text': t} for t in docs.texts(docs.L_FULL, 3, variants=variants)]
         nb, nr = 4, 3
+    items += [{'text': t} for t in docs.class_corpus()] + [{'text': t} for t in docs.EXOTIC]
     run.run_cases(run_case, items, 'read sweep', chunk=50)
     for label, n, clauses in (('claim-call BFS (text oracle)', nb, {'text'}), ('claim-call BFS (text + read sweep)', nr, {'text', 'reads'})):
         bfs_cases = claims.bfs_corpus(n, with_txn4=(tier == 'quick' and 'reads' not in clauses))
